@@ -170,6 +170,11 @@ func (c *Client) StatBlobs(ctx context.Context, blobs []blob.Ref, fn func(blob.S
 	if len(needStat) == 0 {
 		return nil
 	}
+	// Resolve the server's prefix now: discovery needs a slot of httpGate,
+	// and the workers below hold all of them while they call doStat.
+	if _, err := c.prefix(); err != nil {
+		return err
+	}
 	// StatBlobsParallelHelper calls fn, serially, with what the worker
 	// returns; the worker must not call it too. Only the blobs that were
 	// not answered from the cache above are asked for.
